@@ -1423,3 +1423,70 @@ func (r *Run) LoopNoEarlyExit(fnName, coll, why string) {
 	}
 	r.viol("K2-loop-complete", fnName, construct, "loop not found", why, file, line)
 }
+
+// UnreachableWhen: no effect whose canonical form starts with prefix is reachable from the entry of fn
+// on paths where all the given conditions hold (branches on those conditions, or on their
+// negations, are followed only along the consistent edge; every other branch both ways).
+func (r *Run) UnreachableWhen(fnName, prefix string, conds []string, why string) {
+	fn := r.fn(fnName)
+	if fn == nil {
+		return
+	}
+	prefix = r.X(prefix)
+	file, line := r.P.FnPos(fn)
+	construct := prefix + "… unreachable when " + strings.Join(conds, " & ")
+	holds := map[string]bool{}
+	for _, c := range conds {
+		holds[r.X(c)] = true
+	}
+	env := r.P.Env(fn)
+	used := map[string]bool{}
+	reach := map[*ssa.BasicBlock]bool{fn.Blocks[0]: true}
+	work := []*ssa.BasicBlock{fn.Blocks[0]}
+	for len(work) > 0 {
+		b := work[len(work)-1]
+		work = work[:len(work)-1]
+		succs := b.Succs
+		if ifi, ok := lastInstr(b).(*ssa.If); ok {
+			c := env.condOf(ifi.Cond)
+			switch {
+			case holds[c.String()]:
+				succs = b.Succs[:1]
+				used[c.String()] = true
+			case holds[c.Negate().String()]:
+				succs = b.Succs[1:]
+				used[c.Negate().String()] = true
+			}
+		}
+		for _, s := range succs {
+			if !reach[s] {
+				reach[s] = true
+				work = append(work, s)
+			}
+		}
+	}
+	found := false
+	for _, e := range r.P.Effects(fn) {
+		if !strings.HasPrefix(e.Canon, prefix) {
+			continue
+		}
+		found = true
+		if reach[e.Instr.Block()] {
+			r.viol("K2-unreachable-when", fnName, construct, fmt.Sprintf("%s at %s:%d is reachable although %s", e.Canon, e.File, e.Line, strings.Join(conds, " and ")), why, e.File, e.Line)
+			return
+		}
+		file, line = e.File, e.Line
+	}
+	if !found {
+		// the effect is gone altogether: nothing to reach
+		r.pass("K2-unreachable-when", fnName, construct, "effect absent", why, file, line)
+		return
+	}
+	for c := range holds {
+		if !used[c] {
+			r.viol("K2-unreachable-when", fnName, construct, fnName+" no longer branches on "+c, why, file, line)
+			return
+		}
+	}
+	r.pass("K2-unreachable-when", fnName, construct, "", why, file, line)
+}
